@@ -97,7 +97,7 @@ impl OperationControl for Repeat {
         let bound = self
             .max
             .min((matcher.search.len() - position + 1).max(self.min));
-        let mut p = position;
+        let p = position;
         if self.greedy {
             // Prime the arrays first with iterators up to the maximum length,
             // stopping if there is no match
@@ -116,33 +116,25 @@ impl OperationControl for Repeat {
                 // the number of iterations the stack may hold
                 stack_bound = bound.saturating_add(1);
             }
-            for _i in 0..bound {
-                let mut it = self.operation.matches_iter(matcher, p);
-                if let Some(next) = it.next() {
-                    p = next;
-                    iterators.push(it);
-                    positions.push(p);
-                } else if iterators.is_empty() {
-                    return Box::new(std::iter::empty());
-                } else {
-                    break;
-                }
+            let mut iterator = GreedyRepeatIterator::new(
+                matcher,
+                self.operation.as_ref(),
+                iterators,
+                positions,
+                stack_bound,
+                self.min,
+                position,
+            );
+            iterator.extend(p);
+            if iterator.iterators.is_empty() {
+                return Box::new(std::iter::empty());
             }
             // Now return an iterator which returns all the matching positions
             // in order
             RestoreGroupsIterator::wrap(
                 matcher,
                 saved,
-                Box::new(ForceProgressIterator::new(Box::new(
-                    GreedyRepeatIterator::new(
-                        matcher,
-                        self.operation.as_ref(),
-                        iterators,
-                        positions,
-                        stack_bound,
-                        self.min,
-                    ),
-                ))),
+                Box::new(ForceProgressIterator::new(Box::new(iterator))),
             )
         } else {
             // reluctant (non-greedy) repeat.
@@ -193,6 +185,14 @@ struct GreedyRepeatIterator<'a> {
     iterators: Vec<Box<dyn Iterator<Item = usize> + 'a>>,
     positions: Vec<usize>,
     bound: usize,
+    // the position at which the repeat starts
+    start: usize,
+    // the stack level, if any, whose current match consumed nothing while
+    // the minimum was not reached: repetitions of that match make up the
+    // minimum, and only iterations that consume something follow it
+    filled: Option<usize>,
+    // whether iterations that consume something have been tried behind it
+    filled_extended: bool,
 }
 
 impl<'a> GreedyRepeatIterator<'a> {
@@ -203,6 +203,7 @@ impl<'a> GreedyRepeatIterator<'a> {
         positions: Vec<usize>,
         bound: usize,
         min: usize,
+        start: usize,
     ) -> Self {
         Self {
             primed: true,
@@ -212,6 +213,42 @@ impl<'a> GreedyRepeatIterator<'a> {
             iterators,
             positions,
             bound,
+            start,
+            filled: None,
+            filled_extended: false,
+        }
+    }
+
+    // have enough iterations been made?
+    fn enough(&self) -> bool {
+        self.iterators.len() >= self.min || self.filled.is_some()
+    }
+
+    // add iterations from position p for as long as the operation matches
+    fn extend(&mut self, mut p: usize) {
+        while self.iterators.len() < self.bound {
+            let mut it = self.operation.matches_iter(self.matcher, p);
+            let mut next = it.next();
+            if self.filled.is_some() {
+                // repetitions of an empty match are accounted for already
+                while next == Some(p) {
+                    next = it.next();
+                }
+            }
+            let Some(next) = next else {
+                break;
+            };
+            let consumed_nothing = next == p;
+            p = next;
+            self.iterators.push(it);
+            self.positions.push(p);
+            if consumed_nothing && self.filled.is_none() && self.iterators.len() < self.min {
+                // this result is offered first; iterations that consume
+                // something are only added behind it when it is not taken
+                self.filled = Some(self.iterators.len());
+                self.filled_extended = false;
+                break;
+            }
         }
     }
 }
@@ -220,31 +257,54 @@ impl Iterator for GreedyRepeatIterator<'_> {
     type Item = usize;
 
     fn next(&mut self) -> Option<Self::Item> {
-        let has_next = if self.primed && self.iterators.len() >= self.min {
+        let has_next = if self.primed && self.enough() {
             !self.iterators.is_empty()
         } else if self.iterators.is_empty() {
             false
         } else {
             loop {
+                let level = self.iterators.len();
+                if self.filled == Some(level) && !self.filled_extended {
+                    // the empty match that made up the minimum was not
+                    // taken as it is: try iterations that consume something
+                    // behind it
+                    self.filled_extended = true;
+                    let p = self.positions[level - 1];
+                    self.extend(p);
+                    if self.iterators.len() > level {
+                        break;
+                    }
+                }
+                // the current match of the top level is given up
+                if self.filled == Some(level) {
+                    self.filled = None;
+                }
+                let level_start = if level >= 2 {
+                    self.positions[level - 2]
+                } else {
+                    self.start
+                };
                 let top = self.iterators.last_mut().unwrap();
-                if let Some(mut p) = top.next() {
+                let mut next = top.next();
+                if self.filled.is_some() {
+                    while next == Some(level_start) {
+                        next = top.next();
+                    }
+                }
+                if let Some(p) = next {
                     self.positions.pop();
                     self.positions.push(p);
-                    while self.iterators.len() < self.bound {
-                        let mut it = self.operation.matches_iter(self.matcher, p);
-                        if let Some(next) = it.next() {
-                            p = next;
-                            self.iterators.push(it);
-                            self.positions.push(p)
-                        } else {
-                            break;
-                        }
+                    if p == level_start && self.filled.is_none() && level < self.min {
+                        self.filled = Some(level);
+                        self.filled_extended = false;
+                    } else {
+                        self.extend(p);
                     }
                 } else {
                     self.iterators.pop();
                     self.positions.pop();
                 }
-                if self.iterators.len() >= self.min || self.iterators.is_empty() {
+                if self.enough() || self.iterators.is_empty() {
                     break;
                 }
             }
